@@ -636,6 +636,9 @@ class NUMERIC(FieldType):
         signed = self.signed
 
         # Calculate the minimum and maximum possible values for error checking
+        if numtype is float:
+            # (not every 64-bit pattern is a number)
+            return (float("-inf") if signed else 0.0), float("inf")
         min_value = from_sortable(numtype, bits, signed, 0)
         max_value = from_sortable(numtype, bits, signed, 2 ** bits - 1)
 
